@@ -62,12 +62,13 @@ def chunks(tier, seed):
     for k in range(8 if tier == "quick" else 32):
         out.append({"kind": "seq", "n": nq // (8 if tier == "quick" else 32), "key": "seq%d" % k})
     out.append({"kind": "opobj", "key": "opobj", "reps": 3 if tier == "quick" else 20})
+    out.append({"kind": "minmax", "key": "minmax", "n": 600 if tier == "quick" else 8000})
     return out
 
 
 def floors(tier):
     f = {"monitors": {"value.vs_oracle": 20000, "conservation.state": 20000, "rpn.semantic": 10000,
-                      "opobj.vs_oracle": 100},
+                      "opobj.vs_oracle": 100, "minmax.order_independent": 500},
          "classes": {"form:expr": 5000, "form:assign_new": 500, "form:assign_existing": 500, "form:coord": 500,
                      "form:reflex": 200, "needs_parentheses": 2000, "left_assoc_same_prec": 1000, "neg": 1000,
                      "neg_bare_after_additive": 100, "scalar_left": 1000, "scalar_right": 1000, "scalar_scalar": 300,
@@ -295,6 +296,33 @@ def cases(chunk):
                 c["kind"] = "seq"
                 yield c
                 continue
+            if rng.random() < 0.25:
+                # an aggregate evaluated INSIDE an assignment, the same name then changed (by that very assignment or
+                # by a later one), and the same aggregate asked for again: nothing remembered from the first
+                # evaluation -- on either evaluation path -- may be served the second time
+                v = rng.choice(NAMES)
+                w = rng.choice([k for k in NAMES if k != v])
+                fn = rng.choice(E.AGGREGATES)
+                arg1 = rng.choice([["var", v], ["var", v], ["bin", rng.choice(["+", "*"]), ["var", v], ["var", w]]])
+                agg1 = ["fn", fn, arg1]
+                rhs = rng.choice([agg1, ["bin", rng.choice(["-", "+", "*"]), ["var", v], agg1],
+                                  ["bin", "-", ["var", w], agg1]])
+                tgt = rng.choice([v, v, "c"])
+                form1 = {"form": "assign_existing", "target": v} if tgt == v else {"form": "assign_new", "target": "c"}
+                stmts = [dict(form1, ast=rhs, via="operate")]
+                if tgt != v or rng.random() < 0.4:
+                    upd = ["bin", rng.choice(["+", "*", "-"]), ["var", v], rng.choice([["var", w], ["num", "2"], ["num", "3"]])]
+                    stmts.append(dict({"form": "assign_existing", "target": v}, ast=upd, via="operate"))
+                arg2 = arg1 if rng.random() < 0.6 else ["bin", rng.choice(["-", "*", "+"]), ["var", v], ["var", w]]
+                again = ["fn", fn, arg2]
+                if rng.random() < 0.4:
+                    again = ["bin", rng.choice(["+", "-", "*"]), again, rng.choice([["var", w], ["num", "2"]])]
+                stmts.append(dict(form="expr" if rng.random() < 0.7 else "assign_new", target="d", ast=again,
+                                  via=rng.choice(["operate", "operate", "getitem"])))
+                c["stmts"] = stmts
+                c["kind"] = "seq"
+                yield c
+                continue
             for k in range(rng.randrange(2, 6)):
                 ast = random_tree_over(rng, rng.randrange(1, 4), names)
                 f = form_for(k, ast, rng)
@@ -311,6 +339,17 @@ def cases(chunk):
             c["stmts"] = stmts
             c["kind"] = "seq"
             yield c
+    elif kind == "minmax":
+        # MIN / MAX over vectors that hold NaN (as D{} and D2{} produce them): every rotation of the vector
+        for i in range(chunk["n"]):
+            n = rng.choice([2, 3, 3, 4, 5, 6])
+            v = [rng.choice(VALS + [2.5, -0.5]) for _ in range(n)]
+            for k in rng.sample(range(n), rng.choice([1, 1, 1, 2]) if n > 2 else 1):
+                v[k] = float("nan")
+            if i % 3 == 0:
+                v[0] = float("nan")
+            yield {"kind": "minmax", "v": v, "fn": rng.choice(["MIN", "MAX"]),
+                   "route": rng.choice(["expr", "expr", "opobj", "sub"])}
     elif kind == "opobj":
         for rep in range(chunk["reps"]):
             for ei, feat in enumerate(ENVS):
@@ -543,6 +582,51 @@ def judge_stmt(tr, env, n, stmt, ctx, cls):
     return "held", None
 
 
+def _order_free(ast):
+    """Only pointwise operations, MIN/MAX as the only aggregates, no positional name (idx, t)."""
+    k = ast[0]
+    if k == "num":
+        return True
+    if k == "var":
+        return ast[1] in ("a", "b", "s", "x", "y", "z")
+    if k in ("par", "neg"):
+        return _order_free(ast[1])
+    if k == "fn":
+        return (ast[1] in E.POINTWISE or ast[1] in ("MIN", "MAX")) and _order_free(ast[2])
+    return _order_free(ast[2]) and _order_free(ast[3])
+
+
+def order_independence(case, st, tr, n, ctx):
+    """Metamorphic monitor for the one situation the arithmetic oracle leaves open: MIN / MAX over values that
+    include NaN.  Whatever NaN policy is documented, the minimum / maximum of a set of values cannot depend on the
+    ORDER of the observations: evaluating the same order-free expression on the track with its observations
+    rotated by one must give the rotated result.  Returns None (not applicable), {} (held) or a witness."""
+    if st["form"] != "expr" or n < 2 or not _order_free(st["ast"]):
+        return None
+    text = E.to_str(st["ast"])
+    rot = dict(case)
+    rot["feat"] = {k: v[1:] + v[:1] for k, v in case["feat"].items()}
+    rot["xyz"] = case["xyz"][1:] + case["xyz"][:1]
+    tr2, _, _ = build(rot)
+    r1 = M.call(tr.operate, text)
+    r2 = M.call(tr2.operate, text)
+    ctx.monitor("minmax.order_independent")
+    if M.is_raised(r1) != M.is_raised(r2):
+        return {"what": "MIN/MAX over values with NaN: evaluation raises for one order of the observations only",
+                "expression": text, "inputs": case["feat"], "original": r1, "rotated": r2}
+    if M.is_raised(r1):
+        return {}
+    try:
+        l1, l2 = list(r1), list(r2)
+    except TypeError:
+        return {"what": "evaluation did not return a list", "expression": text, "got": [r1, r2]}
+    if len(l1) != n or len(l2) != n or not all(M.feq(a, b, 0, 0) for a, b in zip(l1[1:] + l1[:1], l2)):
+        return {"what": "MIN/MAX over values that include NaN depends on the order of the observations",
+                "expression": text, "inputs": case["feat"], "xyz": case["xyz"], "original": l1,
+                "same_track_rotated_by_one": l2}
+    return {}
+
+
 def run_tree(case, ctx):
     cls = set()
     tr, env, n = build(case)
@@ -558,6 +642,15 @@ def run_tree(case, ctx):
     for k, st in enumerate(stmts):
         st = dict(st)
         verdict, info = judge_stmt(tr, env, n, st, ctx, cls)
+        if verdict == "ood" and judged == 0 and case["kind"] == "tree" and "aggregate over NaN" in info:
+            w = order_independence(case, st, tr, n, ctx)
+            if w is not None:
+                cls.add("nan_in_minmax")
+                sig = ((st.get("_text") or E.to_str(st["ast"]), "order"),
+                       tuple(map(repr, (case["feat"]["a"], case["feat"]["b"], case["feat"]["s"]))), n)
+                if w:
+                    return violated(w, sig, True, sorted(cls))
+                return held(sig, True, sorted(cls))
         if verdict == "ood":
             if judged == 0:
                 return ood(info, ["knife_edge"] if info.startswith("knife") else
@@ -654,9 +747,49 @@ def run_opobj(case, ctx):
     return held(sig, True, sorted(cls))
 
 
+def run_minmax(case, ctx):
+    """MIN / MAX of a feature holding NaN, for every rotation of the value vector: one answer (see order_independence)."""
+    from tracklib.core.operators import Operator
+    v, fn, route = case["v"], case["fn"], case["route"]
+    n = len(v)
+    answers = []
+    for r in range(n):
+        vec = v[r:] + v[:r]
+        tr = gen.make_track([(float(i), 0.0, 0.0) for i in range(n)], times_ms=[86400000 + 1000 * i for i in range(n)])
+        tr.createAnalyticalFeature("a", list(vec))
+        tr.createAnalyticalFeature("b", [1.0] * n)
+        if route == "expr":
+            got = M.call(tr.operate, "%s{a}" % fn)
+        elif route == "sub":
+            got = M.call(tr.operate, "%s{a*b}" % fn)
+        else:
+            got = M.call(tr.operate, getattr(Operator, fn), "a")
+        ctx.monitor("minmax.order_independent")
+        if not M.is_raised(got):
+            try:
+                lst = list(got)
+                got = lst[0] if lst and all(M.feq(x, lst[0], 0, 0) for x in lst) else lst
+            except TypeError:
+                pass
+        answers.append(got)
+    sig = ("minmax", fn, route, tuple(map(repr, v)))
+    cls = ["nan_in_minmax", "fn:" + fn]
+    first = answers[0]
+    for r, a in enumerate(answers):
+        same = (M.is_raised(a) and M.is_raised(first)) or \
+               (not M.is_raised(a) and not M.is_raised(first) and not isinstance(a, list) and not isinstance(first, list)
+                and M.feq(a, first, 0, 0))
+        if not same:
+            return violated({"what": "%s over values that include NaN depends on the order of the observations" % fn,
+                             "route": route, "values": v, "answer_for_each_rotation": answers}, sig, True, cls)
+    return held(sig, True, cls)
+
+
 def run_case(case, ctx):
     if case["kind"] in ("tree", "seq"):
         return run_tree(case, ctx)
+    if case["kind"] == "minmax":
+        return run_minmax(case, ctx)
     return run_opobj(case, ctx)
 
 
